@@ -69,7 +69,9 @@ var fieldValues = map[string][]string{
 		"application/json;version=1", "text/x;a=1;b=2", "text/x;b=2;a=1",
 		// optional white space around the ";" of a parameter (RFC 9110 §5.6.6: OWS ";" OWS) is spelling
 		"text/plain ;charset=utf-8", "text/plain ; charset=utf-8", "text/x ;a=1 ; b=2", "application/json ;version=1",
-		"text/html, x/caf\xe9", "text/html, x/caf\xe8"},
+		"text/html, x/caf\xe9", "text/html, x/caf\xe8",
+		// a parameter value may be a quoted-string: a ";" or "," inside it is a byte of the value
+		`text/html;title="a;b"`, `text/html;title="a; b"`, `x/y;a="1;b=2";c=3`, `x/y;a="1;c=3;b=2"`, `x/y;c=3;a="1;b=2"`, `text/plain;title="x,y"`, `text/plain;title="x"`},
 }
 
 var varyConfigs = []string{"", "X-A", "X-A, X-B", "X-B, X-A", "x-a", "*", "X-A, *", "Content-Language", "User-Agent", "Authorization",
